@@ -177,7 +177,9 @@ func c06Objects(c c06Case, now time.Time) (*v1.ExtendedDaemonSet, *v1.ExtendedDa
 	if c.Cfg.Annot == "unpaused" || c.Cfg.Annot == "both" {
 		eds.Annotations[v1.ExtendedDaemonSetCanaryUnpausedAnnotationKey] = "true"
 	}
-	rs := mkERS("ns", "foo-b", "foo", w.Tpl("B"), now.Add(-time.Duration(c.Cfg.Age)*time.Second))
+	// the replica set object is much older than its time as the canary (a replica set re-used for a template that is
+	// applied again): "the canary has lasted" counts from when it became the canary
+	rs := mkERS("ns", "foo-b", "foo", w.Tpl("B"), now.Add(-3*time.Hour-time.Duration(c.Cfg.Age)*time.Second))
 	hash := rs.Spec.TemplateGeneration
 	add := func(t v1.ExtendedDaemonSetReplicaSetConditionType, st corev1.ConditionStatus, transition, update time.Time) {
 		rs.Status.Conditions = append(rs.Status.Conditions, v1.ExtendedDaemonSetReplicaSetCondition{Type: t, Status: st,
